@@ -30,4 +30,5 @@ ContShapes == {"named", "named_attrs", "named_attrs_with", "named0", "unit", "ne
 EnumDerives == {"FromMeta"}
 EnumShapes == {"enum"}
 AttrShapes == {"named", "enum", "unit"}
+VFieldVariant == {It("skip", "word"), It("skip", "false"), It("rename", "str"), It("bogus", "str")}
 =============================================================================
